@@ -19,7 +19,7 @@ def normalisedFilter : List (String × String) :=
   [("callee", "filter_model"), ("#0", "self.k"), ("#1", "self.power"), ("**", "self.filter_params")]
 def mdef : List (String × String) := [("callee", "mdef_model"), ("**", "self.mdef_params")]
 def alter : List (String × String) :=
-  [("callee", "alter_model"), ("**", "self.alter_params"), ("dndm0", "dndm"), ("m", "self.m"), ("wdm", "self.wdm")]
+  [("callee", "alter_model"), ("**", "self.alter_params"), ("dndm0", "super().dndm"), ("m", "self.m"), ("wdm", "self.wdm")]
 def growth : List (String × String) := [("callee", "growth_model"), ("#0", "self.cosmo"), ("**", "self.growth_params")]
 def transfer : List (String × String) := [("callee", "transfer_model"), ("#0", "self.cosmo"), ("**", "self.transfer_params")]
 def wdm : List (String × String) :=
